@@ -276,6 +276,48 @@ Section Macro.
   Definition map_tokens (ms : list (str * value F)) : tt := TBrace (map_members ms).
 End Macro.
 
+(* ---- the RFC 8259 text equivalent to a literal ----
+   `null`, brackets, braces, commas and colons are written as they are; an expression is written as the JSON text of its value
+   (Json.serialize: for the literals true / false / numbers / strings that is the literal itself up to the spelling of the
+   number or the escapes); a key is written as the JSON string of its text; a trailing comma, which RFC 8259 does not allow,
+   is dropped.  JsonMacroProofs.render_text: for a literal of the grammar this text is a JSON text denoting the same value. *)
+Section Render.
+  Variable F : Type.
+  Variable fdisplay : F -> str.
+
+  Fixpoint render (t : tt F) : str :=
+    match t with
+    | TNull _ => s_null
+    | TComma _ => [ch_comma]
+    | TColon _ => [ch_colon]
+    | TExpr _ v _ => serialize F fdisplay v
+    | TBracket _ l =>
+      ch_lbrack ::
+      (fix elems (l : list (tt F)) : str :=
+         match l with
+         | [] => []
+         | x :: r =>
+           render x ++
+           match r with
+           | TComma _ :: r' => match r' with [] => [] | _ :: _ => ch_comma :: elems r' end
+           | _ => []
+           end
+         end) l ++ [ch_rbrack]
+    | TBrace _ l =>
+      ch_lbrace ::
+      (fix members (l : list (tt F)) : str :=
+         match l with
+         | TExpr _ _ (Some k) :: TColon _ :: x :: r =>
+           string_to_string k ++ [ch_colon] ++ render x ++
+           match r with
+           | TComma _ :: r' => match r' with [] => [] | _ :: _ => ch_comma :: members r' end
+           | _ => []
+           end
+         | _ => []
+         end) l ++ [ch_rbrace]
+    end.
+End Render.
+
 Arguments TNull {F}.
 Arguments TComma {F}.
 Arguments TColon {F}.
